@@ -1,0 +1,153 @@
+//go:build verif
+
+package wal
+
+// Contracts for govc (comment-only; compiled only with -tags verif). Property C05.
+//
+// WALChecksum: 8-byte units only; anything else is an error, not a partial sum.
+//@ func WALChecksum
+//@   assigns **
+//@   loop 1 invariant [in-bounds] 0 <= i && i % 8 == 0 && len(b) % 8 == 0
+//@   ensures [misaligned-is-an-error] (old(len(b)) % 8 != 0) ==> result2 != nil
+//@   ensures [aligned-is-accepted] (old(len(b)) % 8 == 0) ==> result2 == nil
+//
+// Offset: the file offset of the frame read last.
+//@ func (*Reader) Offset
+//@   pure
+//@   requires [recv] r != nil
+//@   ensures [def] result == ite(r.frameN == 0, 0, 32 + (r.frameN - 1) * (24 + r.pageSize))
+//
+// ReadFrame: a frame is accepted only when it belongs to the valid prefix of the WAL, which SQLite
+// defines by the salts AND the running checksum; every refusal leaves the frame counter alone;
+// page number zero is an error; the counter moves by exactly one per accepted frame.
+//@ func (*Reader) ReadFrame
+//@   requires [recv] r != nil
+//@   assigns **
+//@   ghost var saltsEq bool = false
+//@   ghost var sumChecked bool = false
+//@   ghost var c1 int = 0
+//@   ghost var c2 int = 0
+//@   ghost update after @WALChecksum#2: c1 = result0
+//@   ghost update after @WALChecksum#2: c2 = result1
+//@   ghost update after @WALChecksum#2: sumChecked = (result2 == nil)
+//@   assert @WALChecksum#1: [chain-continues-from-the-previous-frame] arg0 == r.bo && arg1 == r.chksum1 && arg2 == r.chksum2
+//@   assert @WALChecksum#2: [data-follows-the-frame-header] arg0 == r.bo && arg3 == data
+//@   ghost var nInc int = 0
+//@   ghost update @inc:r.frameN: nInc = nInc + 1
+//@   ensures [refusal-leaves-the-counter] err != nil ==> nInc == 0
+//@   ensures [accepted-frame-counted-once] err == nil ==> (nInc == 1 && pgno != 0)
+//@   ensures [wrong-buffer-refused] (data != nil && len(data) != old(r.pageSize)) ==> err != nil
+//@   ghost var fs1 int = 0
+//@   ghost var st1 int = 0
+//@   ghost var st2 int = 0
+//@   ghost update after @binary.BigEndian.Uint32#1: fs1 = result
+//@   ghost update after @binary.BigEndian.Uint32#2: saltsEq = (r.salt1 == fs1 && r.salt2 == result)
+//@   ghost update after @binary.BigEndian.Uint32#3: st1 = result
+//@   ghost update after @binary.BigEndian.Uint32#4: st2 = result
+//@   ensures [accepted-frame-has-the-header-salts] err == nil ==> saltsEq
+//@   ensures [verified-frame-has-the-stored-checksum] (err == nil && data != nil) ==> (sumChecked && c1 == st1 && c2 == st2)
+//@   ensures [accepted-frame-is-in-the-valid-prefix] err == nil ==> sumChecked
+//
+// The compacting scanner.
+//@ type CompactingFrameScanner
+//@   stable readSeeker, walReader, header, fullScan, start
+//@   stable_set_in NewCompactingFrameScanner
+//@ type Writer
+//@   stable r, rHeader
+//@   stable_set_in NewWriter
+// scan: every frame read is recorded at its own file offset under its page number, replacing an
+// earlier frame of the same page in the running transaction; frames move to the kept set only at a
+// commit frame; frames after the last commit are reported (ErrOpenTransaction), never kept or
+// silently dropped; the kept frames are sorted by offset before they are handed out.
+//@ func (*CompactingFrameScanner) scan
+//@   requires [recv] s != nil && s.walReader != nil && s.header != nil
+//@   assigns **
+//@   ghost var nRead int = 0
+//@   ghost var lastCommit int = 1
+//@   ghost var copied bool = false
+//@   ghost var sorted bool = false
+//@   ghost var off int = 0
+//@   ghost update after @s.walReader.ReadFrame: nRead = ite(result2 == nil, nRead + 1, nRead)
+//@   ghost update after @s.walReader.ReadFrame: lastCommit = ite(result2 == nil, result1, lastCommit)
+//@   ghost update after @s.walReader.Offset: off = result
+//@   assert after @def:offset: [offset-of-the-frame-just-read] offset == s.start + off - 32
+//@   assert after @set:txFrames[pgno]: [recorded-under-its-page-at-its-offset] txFrames[pgno] != nil && txFrames[pgno].Pgno == pgno && txFrames[pgno].Commit == commit && txFrames[pgno].Offset == offset
+//@   assert @maps.Copy: [kept-only-at-a-commit-frame] commit != 0 && lastCommit == commit
+//@   assert @clear: [transaction-set-emptied-only-after-it-was-kept] commit != 0
+//@   assert after @set:s.frames: [kept-set-built-only-for-a-committed-tail] lastCommit != 0
+//@   ghost update after @sort.Sort: sorted = true
+//@   assert @sort.Sort: [sorts-the-kept-frames] arg0 == s.frames
+//@   loop 1 invariant [waiting-iff-last-frame-was-not-a-commit] waitingForCommit == (lastCommit == 0)
+//@   ensures [open-transaction-reported] (nRead > 0 && lastCommit == 0) ==> result1 != nil
+//@   ensures [handed-out-in-offset-order] result1 == nil ==> sorted
+//
+//@ func (cFrames) Less
+//@   pure
+//@   requires [in-range] 0 <= i && i < len(c) && 0 <= j && j < len(c) && c[i] != nil && c[j] != nil
+//@   ensures [by-offset] result == (c[i].Offset < c[j].Offset)
+//
+// Next: the page data is read from where the frame was found (offset + frame header), and it is
+// returned with that frame's page number and commit field; each kept frame is handed out once.
+//@ func (*CompactingFrameScanner) Next
+//@   requires [recv] s != nil && s.readSeeker != nil
+//@   requires [frames] forall k int :: (0 <= k && k < len(s.frames)) ==> s.frames[k] != nil
+//@   assigns **
+//@   ghost var idx int = -1
+//@   ghost update @def:cf: idx = s.fIdx
+//@   assert @s.readSeeker.Seek: [data-of-that-frame] arg0 == cf.Offset + 24 && arg1 == io.SeekStart
+//@   assert @io.ReadFull: [whole-page] arg0 == s.readSeeker && arg1 == s.pageBuf
+//@   ghost var nAdv int = 0
+//@   ghost update @inc:s.fIdx: nAdv = nAdv + 1
+//@   ensures [end-means-all-handed-out] (result1 == io.EOF && nAdv == 0 && idx == -1) ==> old(s.fIdx) >= len(old(s.frames))
+//@   ensures [one-frame-per-call] result1 == nil ==> (nAdv == 1 && result0 != nil)
+//
+// The writer.
+// NewWriter: the checksum chain of the output starts from the source header's checksum.
+//@ func NewWriter
+//@   assigns **
+//@   ensures [usable] result1 == nil ==> result0 != nil
+//
+// writeFrame: header = page number, commit field, the SOURCE header's salts, then the running
+// checksum continued over the first 8 header bytes and the page data; header then data are written.
+//@ func (*Writer) writeFrame
+//@   requires [recv] w != nil && w.rHeader != nil && frame != nil && ww != nil
+//@   assigns **
+//@   ghost var h1 int = 0
+//@   ghost var h2 int = 0
+//@   ghost var d1 int = 0
+//@   ghost var d2 int = 0
+//@   ghost var hdrWritten bool = false
+//@   assert @binary.BigEndian.PutUint32#1: [page-number] arg1 == frame.Pgno
+//@   assert @binary.BigEndian.PutUint32#2: [commit-field] arg1 == frame.Commit
+//@   assert @binary.BigEndian.PutUint32#3: [salt-1-of-the-header] arg1 == w.rHeader.Salt1
+//@   assert @binary.BigEndian.PutUint32#4: [salt-2-of-the-header] arg1 == w.rHeader.Salt2
+//@   assert @WALChecksum#1: [chain-continues] arg0 == w.bo && arg1 == w.chksum1 && arg2 == w.chksum2
+//@   ghost update after @WALChecksum#1: h1 = result0
+//@   ghost update after @WALChecksum#1: h2 = result1
+//@   assert @WALChecksum#2: [data-after-header] arg0 == w.bo && arg1 == h1 && arg2 == h2 && arg3 == frame.Data
+//@   ghost update after @WALChecksum#2: d1 = result0
+//@   ghost update after @WALChecksum#2: d2 = result1
+//@   assert @binary.BigEndian.PutUint32#5: [stored-checksum-1] arg1 == d1
+//@   assert @binary.BigEndian.PutUint32#6: [stored-checksum-2] arg1 == d2
+//@   assert @ww.Write#1: [header-first] arg0 == frmHdr
+//@   ghost update after @ww.Write#1: hdrWritten = (result1 == nil)
+//@   assert @ww.Write#2: [then-the-page] hdrWritten && arg0 == frame.Data
+//
+// WriteTo: the header first, then every frame the iterator delivers, in its order, until io.EOF;
+// any other error stops the copy and is returned.
+//@ func (*Writer) WriteTo
+//@   requires [recv] w != nil && w.r != nil && w.rHeader != nil && ww != nil
+//@   assigns **
+//@   ghost var hdrOK bool = false
+//@   ghost var nextOK bool = false
+//@   ghost var cur int = 0
+//@   ghost var lastErr error = nil
+//@   ghost update after @w.writeWALHeader: hdrOK = (result1 == nil)
+//@   assert @w.r.Next: [header-before-frames] hdrOK
+//@   assume @w.r.Next: [iterator-delivers-a-frame-with-a-nil-error] result1 == nil ==> result0 != nil
+//@   ghost update after @w.r.Next: nextOK = (result1 == nil)
+//@   ghost update after @w.r.Next: cur = result0
+//@   ghost update after @w.r.Next: lastErr = result1
+//@   assert @w.writeFrame: [writes-the-frame-just-delivered] nextOK && arg0 == ww && arg1 == cur
+//@   loop 1 invariant [header-written] hdrOK
+//@   ensures [stops-only-at-end-or-error] retErr == nil ==> (hdrOK && lastErr == io.EOF)
